@@ -170,6 +170,13 @@ fn mentions_empty(env: &Env, t: &T, fuel: u32) -> bool {
     }
 }
 
+/// the values random::any returns for this case, checked by the MODEL's has_type (strict: a nat value is not an int value)
+fn emit_model_inhabits(em: &mut Emit, env: &Env, ts: &[T], c: &str, seed: &[u8], args: &[String]) {
+    let vals = { let (e2, t2, c2, s2) = (env.clone(), ts.to_vec(), c.to_string(), seed.to_vec()); std::thread::Builder::new().stack_size(1 << 30).spawn(move || match std::panic::catch_unwind(std::panic::AssertUnwindSafe(|| run(&e2, &t2, &c2, &s2))).unwrap_or(Err("panic".into())) { Ok(a) => format!("({})", vals_sx(&a.args.iter().map(V::from_idl).collect::<Vec<_>>())), Err(_) => "err".to_string() }).unwrap().join().unwrap_or("err".into()) };
+    let mut a3 = args.to_vec(); a3.push(vals);
+    em.case_nt("c20.inhabits", &a3, true);
+}
+
 pub fn generate(thorough: bool, r: &mut Rng, em: &mut Emit) {
     let scale = if thorough { 10 } else { 1 };
     let configs: Vec<(String, usize, i64, i64)> = vec![
@@ -274,7 +281,9 @@ pub fn generate(thorough: bool, r: &mut Rng, em: &mut Emit) {
         ];
         for _ in 0..(4 * scale) {
             let p1: &str = *r.pick(&ints[..]); let p2 = loop { let p: &str = *r.pick(&ints[..]); if p != p1 { break p; } };
-            let lits = ["1", "7", "0", "100"]; let l1: &str = *r.pick(&lits[..]); let l2: &str = *r.pick(&lits[..]);
+            // plain literals and literals that carry their own annotation (a nat-annotated literal at an int position is
+            // converted by the check against the type; an annotation that does not fit the position is an error)
+            let lits = ["1", "7", "0", "100", "(100 : nat)", "(7 : nat)", "(70 : nat)", "(5 : int)", "(-3 : int)", "(9 : nat8)", "(1 : int64)"]; let l1: &str = *r.pick(&lits[..]); let l2: &str = *r.pick(&lits[..]);
             let t = T::rec(vec![(0, T::Prim(p1)), (1, T::vec(T::Prim(p2))), (2, T::opt(T::Prim(p1))), (3, T::Prim(p2))]);
             progs.push((t, format!("{}.value = [{:?}, {:?}]\n{}.value = [{:?}, {:?}]\n", p1, l1, l2, p2, l2, l1)));
         }
@@ -284,17 +293,24 @@ pub fn generate(thorough: bool, r: &mut Rng, em: &mut Emit) {
                 em.stat("configured-literal.shared-by-two-types");
                 em.case_nt("p.c20.config_value", &args, true);
                 em.case_nt("p.c20.inhabits", &args, true);
+                emit_model_inhabits(em, &vec![], &[t.clone()], &c, &seed, &args);
             }
         }
     }
     // configured values: well-typed, ill-typed, unparsable
-    for (t, vals) in [(T::p("nat8"), vec!["42", "300", "\"x\"", "(", "-1"]), (T::opt(T::p("text")), vec!["null", "opt \"a\"", "\"a\"", "opt 5"]),
+    for (t, vals) in [(T::p("int"), vec!["(100 : nat)", "(64 : nat)", "(127 : nat)", "(5 : int)", "(-5 : int)", "7", "(7 : nat8)"]),
+                      (T::vec(T::p("int")), vec!["vec { (100 : nat); 2 }", "vec { (70 : nat) }"]), (T::opt(T::p("int")), vec!["opt (100 : nat)", "opt (3 : int)"]),
+                      (T::rec(vec![(0, T::p("int")), (1, T::p("nat"))]), vec!["record { (100 : nat); (100 : nat) }", "record { (1 : int); (1 : int) }"]),
+                      (T::p("nat"), vec!["(100 : nat)", "(5 : int)", "(3 : nat8)"]),
+                      (T::p("nat8"), vec!["42", "300", "\"x\"", "(", "-1"]), (T::opt(T::p("text")), vec!["null", "opt \"a\"", "\"a\"", "opt 5"]),
                       (T::vec(T::p("int")), vec!["vec { 1; -2 }", "vec { 1.5 }", "blob \"ab\""]), (T::rec(vec![(0, T::p("bool"))]), vec!["record { true }", "record { 0 = 1 }", "record {}"])] {
         for v in vals.iter() {
             let c = format!("value = [{:?}]\n", v);
-            let args = vec![env_sx(&vec![]), tys_sx(&[t.clone()]), sx::hex(c.as_bytes()), sx::hex(&r.bytes(16))];
+            let seed = r.bytes(16);
+            let args = vec![env_sx(&vec![]), tys_sx(&[t.clone()]), sx::hex(c.as_bytes()), sx::hex(&seed)];
             em.case_nt("p.c20.config_value", &args, true);
             em.case_nt("p.c20.inhabits", &args, true);
+            emit_model_inhabits(em, &vec![], &[t.clone()], &c, &seed, &args);
         }
     }
     // invalid configurations are errors, not panics: range with l > r, unknown text kind, negative width
